@@ -76,6 +76,7 @@ type Interp struct {
 	inInit     int
 	curHarness *ssa.Function
 	known      map[*Term]bool
+	strMats    map[*Term]*strMat // materialised byte prefixes of symbolic strings
 	decodes    map[string][]*decodeRec
 	encoded    map[string][][2]*Term
 	hstubs     map[string]Value
@@ -107,6 +108,7 @@ func (in *Interp) resetPath(prefix []int) {
 	in.inInit = 0
 	in.hstubs = nil
 	in.known = map[*Term]bool{}
+	in.strMats = map[*Term]*strMat{}
 	in.decodes = map[string][]*decodeRec{}
 	in.encoded = map[string][][2]*Term{}
 	in.decodes = map[string][]*decodeRec{}
@@ -162,6 +164,9 @@ func (in *Interp) checkWith(c *Term) string {
 			return "sat"
 		}
 		return "unsat"
+	}
+	if in.E.stop {
+		panic(in.abort("exploration stopped (time budget or path cap)"))
 	}
 	txt := in.pr.Print(c)
 	in.sol.Send(in.pr.Flush())
@@ -293,6 +298,9 @@ func (in *Interp) Obligation(label string, c *Term, kind string) {
 	nc := in.tb.Not(c)
 	r := "sat"
 	if !c.IsFalse() {
+		if in.E.stop {
+			panic(in.abort("exploration stopped (time budget or path cap)"))
+		}
 		txt := in.pr.Print(nc)
 		in.sol.Send(in.pr.Flush())
 		in.sol.Send("(push 1)\n(assert " + txt + ")\n")
@@ -480,12 +488,27 @@ func (in *Interp) callFn(fn *ssa.Function, args []Value, env []Value) Value {
 		return r
 	}
 	if fn.Pkg != nil {
+		if fn.Pkg.Pkg.Path() == "unicode" {
+			// the Unicode tables are never initialised (see stubs_unicode.go)
+			panic(in.abort("unmodelled-external %s (package unicode runs only through its stubs)", fn.String()))
+		}
 		in.E.ensureBuilt(fn.Pkg)
 	}
 	if fn.Blocks == nil {
 		panic(in.abort("unmodelled-external %s", fn.String()))
 	}
 	return in.runFunction(fn, args, env)
+}
+
+// runReal runs the real body of fn, bypassing its stub (used by stubs that fall back to the real code).
+func (in *Interp) runReal(fn *ssa.Function, args []Value) Value {
+	if fn.Pkg != nil {
+		in.E.ensureBuilt(fn.Pkg)
+	}
+	if len(fn.Blocks) == 0 {
+		panic(in.abort("unmodelled-external %s", fn.String()))
+	}
+	return in.runFunction(fn, args, nil)
 }
 
 func (in *Interp) runFunction(fn *ssa.Function, args []Value, env []Value) Value {
